@@ -325,6 +325,25 @@ def config_fill_check(ctx, cp):
             else:
                 if (bits(t.x), bits(t.y)) != (bits(0.0), bits(0.0)):
                     bad.append(("C17:config-%d" % k, "tower (x,y)=(%r,%r) without a complete reference (mode %s)" % (t.x, t.y, mode), hint))
+        # history: the SAME tower objects placed in a second configuration with ANOTHER origin (dataclasses.replace, the
+        # package's own sweep idiom) are located relative to the new origin; the new origin may be one of the towers
+        if mode == "both":
+            import dataclasses
+
+            for which in ("shifted", "on-a-tower"):
+                r2lat, r2lon = (rlat + 0.011, rlon - 0.017) if which == "shifted" else (towers[-1]["lat"], towers[-1]["lon"])
+                try:
+                    cfg2 = dataclasses.replace(cfg, domain=dataclasses.replace(cfg.domain, ref_lat=r2lat, ref_lon=r2lon))
+                except Exception as e:
+                    bad.append(("C17:config-%d" % k, "re-origin raised %r" % e, dict(hint, reorigin=[r2lat, r2lon])))
+                    continue
+                for t, src in zip(cfg2.towers, towers):
+                    count += 1
+                    ex, ey = cp.latlon_to_xy(src["lat"], src["lon"], r2lat, r2lon)
+                    if (bits(t.x), bits(t.y)) != (bits(ex), bits(ey)):
+                        bad.append(("C17:config-%d" % k, "after replacing the origin by (%r, %r) [%s] tower (x,y)=(%r,%r) is not latlon_to_xy(...)=(%r,%r)" % (r2lat, r2lon, which, t.x, t.y, ex, ey),
+                                    dict(hint, reorigin=[r2lat, r2lon])))
+                        break
         # TowerConfig.compute_local_xy directly
         t0 = cp.TowerConfig(name="D", lat=towers[0]["lat"], lon=towers[0]["lon"], z_m=1.0)
         if (bits(t0.x), bits(t0.y)) != (bits(0.0), bits(0.0)):
@@ -471,6 +490,19 @@ def probe_config(cp, geo, raw):
         elif not (t.x == 0.0 and t.y == 0.0):
             out.append(("config:no-reference-not-origin", "tower %s has (x,y)=(%r,%r) although no complete reference was given" % (t.name, t.x, t.y)))
             break
+    if complete and not out:
+        import dataclasses
+
+        last = raw["towers"][-1]
+        for r2lat, r2lon in ((dom["ref_lat"] + 0.011, dom["ref_lon"] - 0.017), (last["lat"], last["lon"])):
+            cfg2 = dataclasses.replace(cfg, domain=dataclasses.replace(cfg.domain, ref_lat=r2lat, ref_lon=r2lon))
+            for t, src in zip(cfg2.towers, raw["towers"]):
+                la, lo = geo.xy_to_latlon(t.x, t.y, r2lat, r2lon)
+                tol = 1e-9 * max(1.0, abs(src["lat"]), abs(src["lon"]))
+                if not (abs(float(la) - src["lat"]) <= tol and abs(float(lo) - src["lon"]) <= tol):
+                    out.append(("config:tower-xy-stale-after-new-origin", "configuration parsed with origin (%r, %r); the same towers in a configuration whose origin was replaced by (%r, %r): tower %s at lat/lon (%r, %r) has local (x,y)=(%r,%r), which is lat/lon (%r, %r) in the new frame"
+                                % (dom["ref_lat"], dom["ref_lon"], r2lat, r2lon, t.name, src["lat"], src["lon"], t.x, t.y, float(la), float(lo))))
+                    return out
     return out
 
 
